@@ -90,6 +90,15 @@ def _worker_init(modname):
     global _MOD
     import importlib
 
+    import logging
+    import warnings
+
+    warnings.filterwarnings("ignore")
+    lg = logging.getLogger("gradflow")
+    lg.propagate = False
+    if not lg.handlers:
+        lg.addHandler(logging.NullHandler())
+    lg.setLevel(logging.WARNING)
     _MOD = importlib.import_module(modname)
     signal.signal(signal.SIGALRM, _alarm)
 
